@@ -19,6 +19,14 @@ DELTA = ['src/encoding/delta.c', 'src/core/bitpack.c', 'src/core/buffer.c']
 THRIFT = ['src/thrift/thrift_decode.c', 'src/thrift/parquet_types.c', 'src/core/arena.c', 'src/core/buffer.c', 'src/core/error.c']
 
 
+def skip_depth():
+    """shared with C04: recursion depth of thrift_skip on containers of containers (one byte per level)"""
+    return E2('thrift-skip-container-nesting', 'harness/e2/c08_skipdepth.c', THRIFT, [], timeout=600, max_depth=120, max_steps=80_000_000,
+              bounds='4 MiB input: unknown field 15 = list of list of ... (0x19 / 0x1A per level; one variant through a map value), last 2 bytes symbolic; '
+                     'parquet_parse_page_header and parquet_parse_file_metadata; the call depth must stay below 120 frames (native replay: the real stack)',
+              functions=['thrift_skip', 'parquet_parse_page_header', 'parquet_parse_file_metadata'])
+
+
 def obligations(tier):
     q = tier == 'quick'
     o = []
@@ -82,6 +90,7 @@ def obligations(tier):
         ob.defines = list(ob.defines) + ['-DVCUT=1']; ob.fork_max = 1024; ob.max_paths = 400000
         ob.bounds += '; the stream is CUT at every length k <= its size (exact-size heap object; k = size is the complete stream); no value assertions'
         o.append(ob)
+    o.append(skip_depth())
     for ng in C13_e1.nesting_guard(tier):
         ng.name = 'thrift-' + ng.name
         o.append(ng)
